@@ -42,7 +42,7 @@ TRUSTED = [
     "ID/ack rewriting (C04/C05) are taken as given here",
     "addresses: dotted quads <-> 32-bit numbers via socket.inet_aton/inet_ntoa; a bytes host (SOCKS domain form) "
     "never equals a str host; sessions referenced by list index instead of object identity; Session.close / "
-    "close_session (end of an association) are not modelled; every region has a handle",
+    "close_session (end of an association) are not modelled; every second further region of a session is registered without a handle (address only)",
     "an exception escaping datagram_received is modelled as 'datagram discarded, state as left by the code up to "
     "the raise'; that CPython's selector event loop survives such an exception is assumed, not verified",
     "interpretation used by the impl-level oracle: 'cannot be decoded' = UDPMessageDeserializer.deserialize raises "
@@ -366,7 +366,9 @@ class Impl:
             for j, ra in enumerate(regs[1:], 1):
                 sess.register_region(circuit_addr=(n2ip(ra[0]), ra[1]),
                                      seed_url="https://sim%d-%d.localhost/seed" % (k, j),
-                                     handle=1000 * (k + 1) + j)
+                                     # every second further region is known by address only (announced by
+                                     # EstablishAgentCommunication): no handle until the simulator tells it
+                                     handle=(1000 * (k + 1) + j) if j % 2 == 0 else None)
             sessions.append(sess)
         protos, transports = [], []
         for p in scen["protos"]:
@@ -981,6 +983,8 @@ class Payloads:
 
     def valid_in(self) -> bytes:
         r = self.rng.random()
+        if r < 0.06:
+            return self.filled("RegionHandshake")     # handled specially by the proxy (object tracking, region name)
         if r < 0.2:
             return self.chat_in()
         if r < 0.27:
